@@ -20,7 +20,8 @@
 (* _preprocess_function).  The property is stated separately as invariants *)
 (* over (ret, db, orig) that do not mention those variants.                *)
 (*                                                                         *)
-(* Two rules of the code as read today contradict the property; they are   *)
+(* Two rules of the code as first read (since repaired: D12, D0101)        *)
+(* contradict the property; they are                                       *)
 (* constants so that TLC can show the refutation at specification level    *)
 (* ("asCoded") while the oracle for the implementation uses the intended   *)
 (* rule:                                                                   *)
